@@ -104,6 +104,8 @@ def _canon_exc(e: Exception) -> str:
     import duckdb
     import snowflake.connector.errors as se
     if isinstance(e, se.ProgrammingError):
+        if e.errno == 255001:
+            return "B"          # the connector cannot bind the value (client side, before any engine call)
         if (e.errno, e.sqlstate) == (2003, "42S02"):
             return "Et"
         if (e.errno, e.sqlstate) == (2043, "02000"):
@@ -116,6 +118,29 @@ def _canon_exc(e: Exception) -> str:
     if isinstance(e, duckdb.InvalidInputException):
         return "A"
     return f"?{type(e).__module__}.{type(e).__name__}:{str(e)[:80]}"
+
+
+class _Boom(Exception):
+    pass
+
+
+def _in_thread(fn):
+    """run fn() on a worker thread and wait for it: no concurrency, only a different calling thread"""
+    import threading
+    box = {}
+
+    def run():
+        try:
+            box["r"] = fn()
+        except BaseException as e:  # noqa: BLE001
+            box["e"] = e
+
+    t = threading.Thread(target=run)
+    t.start()
+    t.join()
+    if "e" in box:
+        raise box["e"]
+    return box.get("r")
 
 
 def _real_case(case) -> list[str]:
@@ -155,20 +180,42 @@ def _real_case_in(case, rnd, out, tmp) -> list[str]:
                         named.append(True)
                     out.append("-")
                 elif k == "K":
-                    curs.append(conns[int(ev[1:])].cursor())
-                    qual.append("" if named[int(ev[1:])] else "db1.s1.")
+                    ci_ = int(ev[2:] if ev[1] == "t" else ev[1:])
+                    if ev[1] == "t":     # the cursor is created by a worker thread (joined before anything else happens)
+                        curs.append(_in_thread(conns[ci_].cursor))
+                    else:
+                        curs.append(conns[ci_].cursor())
+                    qual.append("" if named[ci_] else "db1.s1.")
+                    out.append("-")
+                elif k == "W":           # a `with conn:` / `with cursor:` block ends here, normally or by an exception
+                    obj = curs[int(ev[2:])] if ev[1] == "c" else conns[int(ev[2:])]
+                    if ev[1] == "e":
+                        try:
+                            with obj:
+                                raise _Boom()
+                        except _Boom:
+                            pass
+                    else:
+                        with obj:
+                            pass
                     out.append("-")
                 elif k == "M":
-                    r = conns[int(ev[1:])].commit()
+                    r = _in_thread(conns[int(ev[2:])].commit) if ev[1] == "t" else conns[int(ev[1:])].commit()
                     out.append("ok" if r is None else f"?commit returned {r!r}")
                 elif k == "R":
-                    r = conns[int(ev[1:])].rollback()
+                    r = _in_thread(conns[int(ev[2:])].rollback) if ev[1] == "t" else conns[int(ev[1:])].rollback()
                     out.append("ok" if r is None else f"?rollback returned {r!r}")
                 elif k == "X":
                     ci, st = ev[1:].split(":")
                     cur = curs[int(ci)]
-                    r = cur.execute(_sql(st, rnd, qual[int(ci)]))
-                    out.append(_canon(st, cur) if r is cur else f"?execute returned {r!r}")
+                    if st[0] == "e":     # executemany: em<t>.<k1>.<k2>.<v> two good rows · ef<t>.<k1>.<v> second row cannot be bound
+                        nums = st[2:].split(".")
+                        rows = [(int(nums[1]), int(nums[-1])), (int(nums[2]) if st[1] == "m" else object(), int(nums[-1]))]
+                        r = cur.executemany(f"insert into {qual[int(ci)]}t{nums[0]} values (%s, %s)", rows)
+                        out.append(_canon("i", cur) if r is cur else f"?executemany returned {r!r}")
+                    else:
+                        r = cur.execute(_sql(st, rnd, qual[int(ci)]))
+                        out.append(_canon(st, cur) if r is cur else f"?execute returned {r!r}")
                 else:
                     raise common.Infra(f"bad event {ev}")
             except common.Infra:
@@ -224,6 +271,15 @@ CORE_SCRIPTS = [
     # regression for repair 0e75b9f: MERGEs (also failing ones) of two connections in overlapping transactions, on different
     # tables, both commit (they used to collide on a bogus comment row for the temporary MERGE_CANDIDATES table)
     ["b", "mu@.9.4", "s@", "c"],
+    # executemany = its rows one after the other: outside a transaction every row is committed at once, also when a later
+    # row cannot be bound; afterwards the connection is still in autocommit and ROLLBACK/COMMIT are no-ops
+    ["em@.1.2.7", "s@", "r", "i@.3.3"],
+    ["ef@.1.7", "i@.2.2", "r", "s@"],
+    ["b", "em@.4.5.6", "s@", "r"],
+    # a `with conn:` / `with cursor:` block that ends while a transaction is open neither commits nor rolls back
+    ["b", "i@.1.1", "wn", "s@", "r"],
+    ["b", "i@.2.2", "we", "c"],
+    ["b", "i@.3.3", "wc", "r"],
 ]
 # scripts with a statement in a known-defect region
 FINDING_SCRIPTS = [
@@ -252,6 +308,10 @@ def _pair_case(rnd, a: list[str], b: list[str], order: list[int], policy: str, a
         idx[c] += 1
         if api and st in ("c", "r"):
             ev.append(("M" if st == "c" else "R") + str(c))
+        elif st in ("wn", "we"):
+            ev.append(f"W{st[1]}{c}")                      # a `with conn:` block ends (normally / by an exception)
+        elif st == "wc":
+            ev.append(f"Wc{c * ncur + flip[c]}")           # a `with cursor:` block ends
         else:
             ev.append(f"X{c * ncur + flip[c]}:{st}")
             flip[c] ^= 1  # alternate between the connection's cursors
@@ -285,7 +345,8 @@ def _random_script(rnd, c: int, n: int, envelope: bool) -> list[str]:
         elif r < 0.89:
             out.append(f"u{c}.{rnd.choice([0, 1, 2, 3, 9])}.{rnd.randrange(10)}")
         elif r < 0.93:
-            out.append(rnd.choice(["ft", "fc", f"fm{c}", f"mu{c}.9.{rnd.randrange(10)}"]))
+            out.append(rnd.choice(["ft", "fc", f"fm{c}", f"mu{c}.9.{rnd.randrange(10)}", "wn", "we",
+                                   f"em{c}.{rnd.randrange(4)}.{rnd.randrange(4)}.{rnd.randrange(10)}", f"ef{c}.{rnd.randrange(4)}.{rnd.randrange(10)}"]))
         elif r < 0.96:
             out.append("k")
         elif envelope:
@@ -312,6 +373,8 @@ def _random_case(rnd, nconn: int, length: int, envelope: bool, spell: int) -> di
             live.remove(c)
         if st in ("c", "r") and rnd.random() < 0.3:
             ev.append(("M" if st == "c" else "R") + str(c))
+        elif st in ("wn", "we"):
+            ev.append(f"W{st[1]}{c}")
         else:
             ev.append(f"X{c * ncur + rnd.randrange(ncur)}:{st}")
         if rnd.random() < 0.35:
@@ -322,7 +385,7 @@ def _random_case(rnd, nconn: int, length: int, envelope: bool, spell: int) -> di
     return {"init": init, "events": ev, "spell": spell}
 
 
-def _variant(case: dict, unnamed: bool, dbpath: bool) -> dict:
+def _variant(case: dict, unnamed: bool, dbpath: bool, threads: bool = False) -> dict:
     """configurations: connections opened WITHOUT database/schema (only those that run no MERGE, which needs a current
     database for its temporary table), and an instance WITH db_path (fresh directory) instead of in memory"""
     ev = list(case["events"])
@@ -338,6 +401,16 @@ def _variant(case: dict, unnamed: bool, dbpath: bool) -> dict:
                 if ci not in merges and not (i > 0 and ev[i - 1][0] == "X"):   # not the final reader
                     ev[i] = "Cn"
                 ci += 1
+    if threads:
+        # the second cursor of every connection is created on a worker thread, conn.commit()/rollback() are called from one
+        seen = set()
+        for i, e in enumerate(ev):
+            if e[0] == "K" and e[1] != "t":
+                if e in seen:
+                    ev[i] = "Kt" + e[1:]
+                seen.add(e)
+            elif e[0] in "MR" and e[1] != "t":
+                ev[i] = e[0] + "t" + e[1:]
     out = dict(case, events=ev)
     if dbpath:
         out["dbpath"] = True
@@ -371,10 +444,16 @@ def _cases(chk) -> list[dict]:
             base = _pair_case(rnd, _inst(a, 0), _inst(b, 1), order, "dense", api, rnd.randrange(1 << 30))
             cases.append(dict(_variant(base, True, False), gen="fixed-unnamed"))
             cases.append(dict(_variant(base, False, True), gen="fixed-dbpath"))
+            cases.append(dict(_variant(base, False, False, True), gen="fixed-threads"))
+    # executemany and with-block scripts against a reader, dense probes
+    for si in range(16, 22):
+        a, b = CORE_SCRIPTS[si], CORE_SCRIPTS[10]
+        for order in rnd.sample(list(_interleavings(len(a), len(b))), 4):
+            cases.append(dict(_pair_case(rnd, _inst(a, 0), _inst(b, 1), order, "dense", False, rnd.randrange(1 << 30)), gen="fixed-many-with"))
     # A. exhaustive statement-level interleavings of script pairs
     pairs = [(a, b) for a in range(len(CORE_SCRIPTS)) for b in range(len(CORE_SCRIPTS))]
     rnd.shuffle(pairs)
-    npairs = 16 if quick else 60    # thorough: a seeded sample of the ordered pairs (all of them is 125 CPU-min)
+    npairs = 12 if quick else 60    # thorough: a seeded sample of the ordered pairs (all of them is 125 CPU-min)
     for pi, (ia, ib) in enumerate(pairs[:npairs]):
         a, b = _inst(CORE_SCRIPTS[ia], 0), _inst(CORE_SCRIPTS[ib], 1)
         policy = ("dense", "others", "sparse", "others")[pi % 4] if quick else None
@@ -382,8 +461,8 @@ def _cases(chk) -> list[dict]:
         for order in _interleavings(len(a), len(b)):
             for pol in ([policy] if policy else ["dense", "sparse"]):
                 base = _pair_case(rnd, a, b, order, pol, api, rnd.randrange(1 << 30))
-                cfg = pi % 4     # 0, 3: in memory, named connections · 1: connections without database · 2: db_path instance
-                cases.append(dict(_variant(base, cfg == 1, cfg == 2), gen="pairs" + ("", "-unnamed", "-dbpath", "")[cfg]))
+                cfg = pi % 4     # 0: plain · 1: connections without database · 2: db_path instance · 3: cursors / commit from other threads
+                cases.append(dict(_variant(base, cfg == 1, cfg == 2, cfg == 3), gen="pairs" + ("", "-unnamed", "-dbpath", "-threads")[cfg]))
     chk.extra["exhaustive_part"] = (f"{npairs} (seeded sample of {len(pairs)}) ordered pairs of the {len(CORE_SCRIPTS)} core scripts x ALL interleavings "
                                     f"(C(len a + len b, len a) each)")
     # B. finding scripts against a reader, all interleavings
@@ -399,7 +478,7 @@ def _cases(chk) -> list[dict]:
     for i in range(nrand):
         nconn = rnd.choice([2, 3, 3])
         base = _random_case(rnd, nconn, rnd.randint(3, 9), envelope=(i % 5 != 0), spell=rnd.randrange(1 << 30))
-        cases.append(dict(_variant(base, i % 6 == 1, i % 6 == 2), gen="random" + {1: "-unnamed", 2: "-dbpath"}.get(i % 6, "")))
+        cases.append(dict(_variant(base, i % 6 == 1, i % 6 == 2, i % 6 == 3), gen="random" + {1: "-unnamed", 2: "-dbpath", 3: "-threads"}.get(i % 6, "")))
     return cases
 
 
@@ -407,10 +486,33 @@ def _cases(chk) -> list[dict]:
 # verdict
 # ------------------------------------------------------------------------------------------------
 
+def _model_view(case):
+    """events as the model sees them, and for every real event the index of the model event whose observation it is
+    compared with (executemany = its rows executed one after the other on the same cursor, `cursor.py` executemany; the
+    row that cannot be bound never reaches the engine) or a fixed expectation"""
+    mev, rmap, expect = [], [], []
+    for e in case["events"]:
+        fixed = None
+        if e[0] == "X" and e.split(":")[1][:2] in ("em", "ef"):
+            cur, st = e.split(":")
+            nums = st[2:].split(".")
+            ks = [nums[1], nums[2]] if st[1] == "m" else [nums[1]]
+            for kk in ks:
+                mev.append(f"{cur}:i{nums[0]}.{kk}.{nums[-1]}")
+            if st[1] == "f":
+                fixed = "B"
+        elif e[0] in "MR" and e[1] == "t":
+            mev.append(e[0] + e[2:])
+        else:
+            mev.append(re.sub(r":mu", ":u", re.sub(r":fm\d*$", ":fm", e)))
+        rmap.append(len(mev) - 1)
+        expect.append(fixed)
+    return mev, rmap, expect
+
+
 def _line(case, shared=False) -> str:
     init = "|".join(",".join(f"{a}.{b}" for a, b in t) for t in case["init"])
-    evs = [re.sub(r":mu", ":u", re.sub(r":fm\d*$", ":fm", e)) for e in case["events"]]
-    return "\t".join(["tx", "run", "1" if shared else "0", init, ";".join(evs)])
+    return "\t".join(["tx", "run", "1" if shared else "0", init, ";".join(_model_view(case)[0])])
 
 
 def _norm_model(ev: str, o: str) -> str:
@@ -432,8 +534,16 @@ def _check(chk, case, real, reply) -> None:
     evs = case["events"]
     if "impl" not in reply:
         raise common.Infra(f"driver: {reply}")
-    impl = [_norm_model(e, o) for e, o in zip(evs, dec_list(reply["impl"]))]
-    spec = [_norm_model(e, o) for e, o in zip(evs, dec_list(reply["spec"]))]
+    mev, rmap, expect = _model_view(case)
+    mi, ms = dec_list(reply["impl"]), dec_list(reply["spec"])
+    if len(mi) != len(mev) or len(ms) != len(mev):
+        raise common.Infra(f"driver answered {len(mi)} observations for {len(mev)} model events")
+    def view(obs, i):
+        o = _norm_model(mev[rmap[i]], obs[rmap[i]])
+        # executemany whose second row cannot be bound: the bind error is what the caller sees – unless the first row already failed
+        return expect[i] if (expect[i] and o.startswith("n")) else o
+    impl = [view(mi, i) for i in range(len(evs))]
+    spec = [view(ms, i) for i in range(len(evs))]
     key = reply.get("finding", "-")
     env = reply.get("env") == "1"
     stmts = [e for e in evs if e[0] in "XMR"]
